@@ -274,6 +274,9 @@ type ConcCase struct {
 	// Extra ledgers besides l1 (bucket b1); Target is the ledger the concurrent line is about (default l1)
 	Extra  []CaseLedger `json:"extra,omitempty"`
 	Target string       `json:"target,omitempty"`
+	// Quiesce > 0 (C34): once every parallel operation has returned, the block builder runs to completion
+	// with this maximal block size, and only then is the state observed
+	Quiesce int `json:"quiesce,omitempty"`
 }
 
 func (c ConcCase) ledgerNames() []string {
@@ -311,6 +314,8 @@ type ConcResult struct {
 	Log      []Decision `json:"log"`
 	Preempt  int        `json:"preempt"`
 	Chain    []int      `json:"chain"` // for each log (id order): id of the log whose hash it chains from (-1 none/unknown)
+	Blk      BlkMap     `json:"blk"`
+	Quiet    bool       `json:"quiet"`
 	SchedErr string     `json:"schedErr,omitempty"`
 }
 
@@ -434,11 +439,20 @@ func (b *ConcBase) RunSchedule(prefix []string) (*ConcResult, error) {
 	for rank, x := range cs {
 		res.CSeq[x.i] = rank + 1
 	}
+	if b.Case.Quiesce > 0 {
+		if r := env.RunBlocks(ctx, "w0", b.Case.Quiesce); !r.OK {
+			return res, &Inconclusive{Msg: "block runner: " + r.Msg}
+		}
+		res.Quiet = true
+	}
 	post, err := observeMany(env, b.Case.ledgerNames())
 	if err != nil {
 		return res, obsFailure(env, err)
 	}
 	res.Post = post
+	if res.Blk, err = env.BlocksOf(b.Case.ledgerNames()); err != nil {
+		return res, &Inconclusive{Msg: "observing blocks: " + err.Error()}
+	}
 	res.Chain = chainOf(post[b.Case.target()].Logs)
 	if u := env.PG.UnsupportedSeen(); len(u) > 0 {
 		return res, &Inconclusive{Msg: fmt.Sprintf("unsupported SQL in pgmodel: %v", u)}
